@@ -17,6 +17,8 @@ import itertools
 import json
 import multiprocessing
 import os
+import pathlib
+import shutil
 import struct
 import time
 
@@ -897,6 +899,108 @@ def check_poser_histories(ctx, lineups):
             ctx.fail("correspondence", "PoSER on model states of histories: model %s, implementation %s" % (m, got), case, key="C15:corr:poser-histories")
 
 
+# ----------------------------------------------------------------------------------------------- persistence by name
+NAME_FAMILIES = [
+    ["setup_fs12.5", "setup_fs12.8", "setup_fs12"],          # dotted names that differ only after the last dot
+    ["campaign.day1", "campaign.day2", "campaign.day10"],
+    ["a.pkl", "b.pkl", "a.b.pkl"],                            # with the usual extension
+    ["plain", "plain2", "other"],                             # no extension at all
+    ["run.2024.01.pkl", "run.2024.02.pkl", "run.2024.pkl"],
+    ["v1.0/setup", "v1.1/setup", "v1.0/setup2"],              # sub-directories (dots in the directory names)
+    ["sub/x.1", "sub/x.2", "sub/y.1"],
+    ["setup.pickle", "setup.dat", "setup2.pickle"],           # other extensions
+    ["rec_0.25Hz", "rec_0.50Hz", "rec_0.75Hz"],
+]
+
+
+def build_setups(lineups_histories):
+    out = []
+    for lu, h in lineups_histories:
+        conc, _, _ = resolve(lu, h)
+        ss = SingleSetup(W.base.copy(), fs=FS)
+        for op in conc:
+            if op[0] == "addall":
+                ss.add_algorithms(*[new_alg(lu, i) for i in range(len(lu))])
+            elif op[0] == "runall":
+                ss.run_all()
+            elif op[0] == "run":
+                ss.run_by_name("a%d" % op[1])
+            elif op[0] == "mpe":
+                ss.mpe("a%d" % op[1], **copy.deepcopy(MPE[lu[op[1]][0]][lu[op[1]][2]]))
+            elif op[0] == "rebind":
+                ss.decimate_data(q=2) if op[1] == "dec" else ss.detrend_data()
+        out.append(ss)
+    return out
+
+
+def check_persistence(ctx, families):
+    """the property text on files: a setup saved under a name and loaded back under THAT name carries equal parameters and
+    results - whatever else has been saved under other names in between (names as str and as pathlib.Path, with and
+    without extension, differing only after the last dot, in sub-directories)"""
+    rng = ctx.rng
+    x, y = rng.sample(list(CLASSES), 2)
+    specs = [([[x, 0, 0], [y, 0, 0]], [["addall"], ["runall"], ["mpe", 0], ["mpe", 1]]),
+             ([[x, 1, 1], [y, 1, 1]], [["addall"], ["runall"], ["mpe", 1]]),
+             ([[y, 0, 1], [x, 1, 0]], [["addall"], ["rebind"], ["add", 0], ["runall"]])]
+    setups = build_setups(specs)
+    snaps = [snapshot(ss) for ss in setups]
+    assert len({json.dumps(sn, sort_keys=True, default=str) for sn in snaps}) == len(snaps)
+    root = os.path.join(ctx.work, "c15_files")
+
+    def differing(a, b):
+        n = 0
+        for k in set(a) | set(b):
+            if a.get(k) != b.get(k):
+                n += 1 if k.startswith("__") else sum(1 for u, v in zip(a.get(k) or [None] * 6, b.get(k) or [None] * 6) if u != v)
+        return n
+
+    for fi, fam in enumerate(families):
+        shutil.rmtree(root, ignore_errors=True)
+        held = {}  # name -> index of the setup saved under it last
+        order = list(range(len(fam)))
+        rng.shuffle(order)
+        steps = [(i, (i + fi) % len(setups)) for i in order] + [(i, (i + fi + 1) % len(setups)) for i in reversed(order)]
+        as_path = [(i + fi) % 2 == 1 for i in range(len(fam))]
+        case = dict(kind="save/load by name", names=fam, given_as=["pathlib.Path" if p else "str" for p in as_path],
+                    setups=[dict(lineup=lu, history=h) for lu, h in specs], saves=[[fam[i], k] for i, k in steps])
+        ctx.count(case)
+        ctx.hist("file-name family", "|".join(fam))
+
+        def arg(i):
+            full = os.path.join(root, fam[i])
+            os.makedirs(os.path.dirname(full), exist_ok=True)
+            return pathlib.Path(full) if as_path[i] else full
+
+        def load_and_compare(i, when):
+            try:
+                got = snapshot(load_from_file(arg(i)))
+            except Exception as e:  # noqa: BLE001
+                ctx.fail("oracle", "load_from_file(%r) raised %s %s" % (fam[i], type(e).__name__, when), dict(case, at=fam[i]),
+                         key="C15:saveload:names-raised")
+                return
+            want = snaps[held[i]]
+            if got != want:
+                other = [k for k, sn in enumerate(snaps) if sn == got]
+                ctx.fail("oracle", "loading %r %s returns %s (%d parameter/result/data fields differ from the setup saved under that name)" % (
+                    fam[i], when, "the setup saved under another name" if other else "a setup that was never saved", differing(got, want)),
+                    dict(case, at=fam[i]), key="C15:saveload:name-collision" if other else "C15:saveload:names-not-equal")
+
+        for (i, k) in steps:
+            try:
+                save_to_file(setups[k], arg(i))
+            except Exception as e:  # noqa: BLE001
+                ctx.fail("oracle", "save_to_file(.., %r) raised %s" % (fam[i], type(e).__name__), dict(case, at=fam[i]), key="C15:saveload:names-raised")
+                continue
+            held[i] = k
+            load_and_compare(i, "right after saving it")
+            for j in sorted(held):
+                if j != i:
+                    load_and_compare(j, "after %r was saved too" % fam[i])
+        if [snapshot(ss) for ss in setups] != snaps:
+            ctx.fail("oracle", "saving / loading changed the setups that were saved", case, key="C15:saveload:names-mutated")
+    shutil.rmtree(root, ignore_errors=True)
+
+
 # ----------------------------------------------------------------------------------------------- entry point
 def run(ctx):
     global W
@@ -1104,7 +1208,21 @@ def run(ctx):
     plu = [[[x, 0, 0], [y, 0, 0]] for (x, y) in (fam[:1] if ctx.quick() else fam[:3])]
     plu += [[l[1], l[0]] for l in plu[:1]] + [[l[1], l[1]] for l in plu[:1]]  # reversed order; subclass in the superclass's place
     check_poser_histories(ctx, plu)
+    T["poser on histories"] = [round(float(x), 1) for x in clock() - t0]
+    t0 = clock()
+    # ---- persistence by file name: corpus families first, then the fixed ones, then drawn ones
+    fams = []
+    for path in sorted(glob.glob(os.path.join(VERIF, "corpus", "C15", "*.json"))):
+        fams += json.load(open(path)).get("name_families", [])
+    fams += NAME_FAMILIES
+    for _ in range(ctx.n(6, 60)):
+        stem = "".join(rng.choice("abcxyz_0123456789") for _ in range(rng.randint(1, 6)))
+        sep = rng.choice([".", ".", ".v", "_", ".0", "-"])
+        ext = rng.choice(["", "", ".pkl", ".p", ".pickle"])
+        sub = rng.choice(["", "", "d1/", "d.2/", "deep/er/"])
+        fams.append(list(dict.fromkeys(sub + stem + sep + str(rng.randrange(1, 30)) + ext for _ in range(3))))
+    check_persistence(ctx, [f for f in fams if len(f) >= 2])
+    T["persistence by name"] = [round(float(x), 1) for x in clock() - t0]
     if os.environ.get("C15_KEYS_OUT"):  # development aid: histogram of failure keys (used when testing mutants)
         import collections
         json.dump(collections.Counter("%s %s" % (f["kind"], f["key"]) for f in ctx.failures), open(os.environ["C15_KEYS_OUT"], "w"), indent=1)
-    T["poser on histories"] = [round(float(x), 1) for x in clock() - t0]
